@@ -19,7 +19,9 @@ var vrfEntries = map[string]func(){"VrfC01Snapshot": VrfC01Snapshot, "VrfC01Stat
 func vrfCid(i int) cid.Cid {
 	c, _ := cid.Decode([]string{
 		"QmUaFyXjZUNaUwYF8rBtbJc7fEJ46aJXvgV8z2HHs6jvmJ",
-		"QmbrCtydGyPeHiLURSPMqrvE5mCgMCwFYq3UD4XLCeAYw6",
+		// a CIDv1 over the SAME multihash as entry 0: the two are different
+		// pins and must never share a datastore key or come back as each other
+		"bafybeic4ukgcd3xmn24mw425u235sywkypky6eku3wc7hgoi2parclxktu",
 		"QmZHKZDavkvNfA9gSAg7HALv8jF7BJaKjUc9U2LSuvUySB"}[i])
 	return c
 }
